@@ -138,6 +138,7 @@ prop("C02", "exploration",
      [
          {"test": "TestC02_OwnResponse", "quick": {"checks": 4000, "timeout": 300},
           "thorough": {"checks": 40000, "shards": 16, "timeout": 2400}},
+         {"test": "TestC02_OwnResponse", "tag": "race", "thorough": {"checks": 3000, "shards": 4, "timeout": 3000, "race": True}},
      ],
      ["RegionActionResults come back in request order (protocol requirement)"])
 
@@ -152,6 +153,7 @@ prop("C05", "exploration",
           "thorough": {"checks": 60000, "shards": 16, "timeout": 2400}},
          {"test": "TestC05_ConcurrentSenders", "quick": {"checks": 4000, "timeout": 300},
           "thorough": {"checks": 40000, "shards": 16, "timeout": 2400}},
+         {"test": "TestC05_ConcurrentSenders", "tag": "race", "thorough": {"checks": 4000, "shards": 4, "timeout": 3000, "race": True}},
          {"test": "TestC05_TCP", "quick": {"checks": 300, "timeout": 300},
           "thorough": {"checks": 3000, "shards": 8, "timeout": 1200}},
      ],
@@ -168,6 +170,7 @@ prop("C07", "exploration",
      [
          {"test": "TestC07_BatchResults", "quick": {"checks": 5000, "timeout": 300},
           "thorough": {"checks": 50000, "shards": 16, "timeout": 2400}},
+         {"test": "TestC07_BatchResults", "tag": "race", "thorough": {"checks": 4000, "shards": 4, "timeout": 3000, "race": True}},
      ],
      ["scripted connection-level faults happen before execution"])
 
@@ -181,6 +184,7 @@ prop("C12", "exploration",
      [
          {"test": "TestC12_BatchExecution", "quick": {"checks": 5000, "timeout": 300},
           "thorough": {"checks": 50000, "shards": 16, "timeout": 2400}},
+         {"test": "TestC12_BatchExecution", "tag": "race", "thorough": {"checks": 4000, "shards": 4, "timeout": 3000, "race": True}},
      ],
      ["faults are injected before execution only"])
 
@@ -213,6 +217,7 @@ prop("C18", "exploration",
      [
          {"test": "TestC18_ReadDeadline", "quick": {"checks": 6000, "timeout": 300},
           "thorough": {"checks": 80000, "shards": 16, "timeout": 2400}},
+         {"test": "TestC18_ReadDeadline", "tag": "race", "thorough": {"checks": 3000, "shards": 4, "timeout": 3000, "race": True}},
      ],
      [])
 
@@ -228,6 +233,7 @@ prop("C03", "fault_enumeration",
      [
          {"test": "TestC03_ConnectionFailure", "quick": {"checks": 1500, "timeout": 300},
           "thorough": {"checks": 15000, "shards": 16, "timeout": 2400}},
+         {"test": "TestC03_ConnectionFailure", "tag": "race", "thorough": {"checks": 600, "shards": 4, "timeout": 3000, "race": True}},
      ],
      ["calls whose own context ended may receive zero or one result"])
 
@@ -263,6 +269,7 @@ prop("C19", "exploration",
      [
          {"test": "TestC19_Close", "quick": {"checks": 5000, "timeout": 300},
           "thorough": {"checks": 50000, "shards": 16, "timeout": 2400}},
+         {"test": "TestC19_Close", "tag": "race", "thorough": {"checks": 4000, "shards": 4, "timeout": 3000, "race": True}},
      ],
      ["'promptly' is read as 100 ms of virtual time (end of the current back-off sleep for a caller in back-off)"])
 
@@ -278,6 +285,7 @@ prop("C04", "exploration",
      [
          {"test": "TestC04_FaultSurvival", "quick": {"checks": 5000, "timeout": 300},
           "thorough": {"checks": 50000, "shards": 16, "timeout": 2400}},
+         {"test": "TestC04_FaultSurvival", "tag": "race", "thorough": {"checks": 3000, "shards": 4, "timeout": 3000, "race": True}},
          {"test": "TestC04_Classification", "quick": {"checks": 1500, "timeout": 120},
           "thorough": {"checks": 6000, "shards": 2, "timeout": 600}},
      ],
@@ -309,6 +317,7 @@ prop("C20", "exploration",
      [
          {"test": "TestC20_OneConnection", "quick": {"checks": 4000, "timeout": 300},
           "thorough": {"checks": 40000, "shards": 16, "timeout": 2400}},
+         {"test": "TestC20_OneConnection", "tag": "race", "thorough": {"checks": 2500, "shards": 4, "timeout": 3000, "race": True}},
      ],
      ["a server answering with a server-fatal class also drops the connection, as real servers do"])
 
